@@ -807,7 +807,22 @@ func (in *Interp) callBuiltin(caller *frame, callpos token.Pos, fn *ssa.Builtin,
 			}
 		case []Value:
 			if len(x) > 0 {
-				panic("clear of slice: unsupported")
+				sig, _ := fn.Type().(*types.Signature)
+				var elem types.Type
+				if sig != nil && sig.Params().Len() == 1 {
+					if st, ok := sig.Params().At(0).Type().Underlying().(*types.Slice); ok {
+						elem = st.Elem()
+					}
+				}
+				if elem == nil {
+					panic("clear of slice: element type unknown")
+				}
+				for i := range x {
+					if in.mon != nil {
+						in.mon.onWrite(caller, &x[i], callpos)
+					}
+					x[i] = in.zero(elem)
+				}
 			}
 		}
 		return nil
